@@ -126,6 +126,8 @@ def _spec_worker(args):
                     for ch in rule.children:
                         spec.get_rule(ch)
             j = rt(spec.to_jsonable())
+            if sorted(j) != ["root", "rules"] or not isinstance(j["rules"], list):  # the layout modelled by specToJ (JsonSpec.lean)
+                out["layout"] = f"specification JSON has keys {sorted(j)}"
             back = CombinatorialSpecification.from_dict(copy.deepcopy(j))
             tag = "after counting" if touch else "fresh"
             if not back == spec:
@@ -147,6 +149,10 @@ def _spec_worker(args):
             if f is not None:
                 out["forms"].append((f, shape(rt(r.to_jsonable()))))
         pack = searcher.strategy_pack
+        pj = rt(pack.to_jsonable())
+        if sorted(pj) != sorted(["name", "initial_strats", "inferral_strats", "expansion_strats", "ver_strats", "symmetries", "iterative"]) \
+                or not all(isinstance(x, list) for x in pj["expansion_strats"]):  # the layout modelled by packToJ
+            out["layout"] = f"pack JSON has keys {sorted(pj)}"
         if not StrategyPack.from_dict(rt(pack.to_jsonable())) == pack:
             out["problems"].append(("pack-roundtrip-not-equal", repr(pack.name)))
     except speccheck.Timeout:
@@ -249,6 +255,8 @@ def run(tier, seed, factor=1):
         if o["status"] == "spec":
             res.traces += 1
             pairs += [(p, o["cfg"]) for p in o["forms"]]
+        if o.get("layout"):
+            res.diff("JSON layout of specifications / packs vs the Lean model (specToJ, packToJ)", o["cfg"], "root,rules / name,*_strats,symmetries,iterative", o["layout"])
         for sig, detail in o["problems"]:
             res.fail(sig, o["cfg"], detail)
     jobs = [(seed * 983 + i, common.scale(tier, 5, 15), N) for i in range(common.scale(tier, 48, 300) * factor)]
